@@ -228,7 +228,17 @@ func findFunctionCallViolation(
 		}
 
 		// Check if it's a method call (obj.Method)
-		typeInfo := util.ExtractTypeInfo(ctx.pass.TypesInfo.TypeOf(fun.X))
+		// The method may be promoted through embedded fields (w.M() where w embeds
+		// the type that declares M): the type checker knows the declaring type
+		recvType := ctx.pass.TypesInfo.TypeOf(fun.X)
+		if sel := ctx.pass.TypesInfo.Selections[fun]; sel != nil && sel.Kind() == types.MethodVal {
+			if fn, ok := sel.Obj().(*types.Func); ok {
+				if sig, ok := fn.Type().(*types.Signature); ok && sig.Recv() != nil {
+					recvType = sig.Recv().Type()
+				}
+			}
+		}
+		typeInfo := util.ExtractTypeInfo(recvType)
 		if typeInfo != nil {
 			methodName := fun.Sel.Name
 			if ctx.testOnlyMethods.Match(typeInfo.PkgPath, methodName, typeInfo.TypeName) {
